@@ -173,6 +173,7 @@ class Interp:
         return self.obligations
 
     def check_ensures(self, st, res, contract):
+        res = self.coerce_result(res, contract.get('returns'))
         st.env['result'] = res
         for gname, local in (contract.get('ghost_bind') or {}).items():
             st.env[gname] = self.spec(st, local, raw=True)
@@ -183,6 +184,18 @@ class Interp:
             self.oblige(st, f'ensures.{label}', goal, text=expr, unique=True)
         if contract.get('canary'):
             pass
+
+    def coerce_result(self, res, rk):
+        """Give kind-less empty containers (`[]`, `{}`) the element kind declared by the contract."""
+        if rk is None:
+            return res
+        if isinstance(rk, (list, tuple)) and isinstance(res, VTuple):
+            return VTuple([self.coerce_result(x, k) for x, k in zip(res.items, rk)])
+        if isinstance(res, VSeq) and res.arr is None and isinstance(rk, str):
+            k = parse_kind(rk)
+            if isinstance(k, tuple) and k[0] in ('list', 'array'):
+                return VSeq(k[1], res.length, z3.Array(fresh_name('empty'), z3.IntSort(), sort_of(k[1])), flavor=res.flavor)
+        return res
 
     def check_raise_ensures(self, st, exc, contract):
         for label, expr in (contract.get('raises_ensures') or {}).get(exc, []):
@@ -603,6 +616,12 @@ class Interp:
         if s.orelse:
             raise EngineError('for-else outside subset')
         n, elem = self.iter_view(s.iter, st)
+        kq = z3.Int(fresh_name('kq'))
+        try:
+            e0 = elem(kq)
+            st.env[idx_name + '_seq'] = VSeq(e0.kind, n, z3.Lambda([kq], to_term(e0, e0.kind)), flavor='tuple')
+        except EngineError:
+            pass
         names, conts = self.mutated_exprs(s.body)
         tnames = set()
         self._target_names(s.target, tnames)
@@ -1391,7 +1410,7 @@ class Interp:
             raise EngineError(f'no stub for `{self.src(e)}`')
         m = self.stubs.method(base, e.attr)
         if m is not None:
-            return VFunc(e.attr, lambda I, st_, args, kwargs, m=m, base=base: m(I, st_, base, *args, **kwargs))
+            return VFunc(e.attr, lambda I, st_, args, kwargs, m=m, base=base: m(I, st_, base, *args, **kwargs), self_value=base)
         a = self.stubs.attribute(self, st, base, e.attr)
         if a is not None:
             return a
